@@ -242,6 +242,70 @@ theorem memberCall_query (f : Fss) (i : Nat) (meth : Meth) (path : Str) (op : Re
 theorem memberCall_call (f : Fss) (i : Nat) (meth : Meth) (path : Str) (op : Ref.Op) :
     (memberCall f i meth path op).2.2 = ⟨i, meth, path, op⟩ := rfl
 
+theorem binMode_contains (m : Str) (c : Char) (hc : c ≠ 't') : (binMode m).contains c = m.contains c := by
+  induction m with
+  | nil => rfl
+  | cons x xs ih =>
+    by_cases hx : x = 't'
+    · subst hx
+      have hct : ('t' == c) = false := by simpa using fun h => hc h.symm
+      have hne : c ≠ 't' := hc
+      simp only [binMode, List.filter_cons] at ih ⊢
+      simp [List.contains_cons, hne, ih]
+    · have : (x != 't') = true := by simpa using hx
+      simp only [binMode, List.filter_cons, this, if_true, List.contains_cons] at ih ⊢
+      rw [ih]
+
+theorem checkWritable_binMode (m : Str) : checkWritable (binMode m) = checkWritable m := by
+  unfold checkWritable
+  rw [binMode_contains m 'w' (by decide), binMode_contains m 'a' (by decide),
+    binMode_contains m '+' (by decide), binMode_contains m 'x' (by decide)]
+
+theorem openCall_call (f : Fss) (i : Nat) (r bm : Str) (d : Option Bytes) :
+    (openCall f i r bm d).2.2 = ⟨i, .open_, r, .openbin r bm⟩ := by
+  unfold openCall
+  simp only
+  split <;> rfl
+
+theorem writeEffect_none_of_query (r bm : Str) (d : Option Bytes) (old : Bytes)
+    (h : isQuery (.openbin r bm) = true) : writeEffect r bm d old = none := by
+  simp only [isQuery, Bool.not_eq_true'] at h
+  have hcw : checkWritable bm = false := h
+  cases d with
+  | none => rfl
+  | some d =>
+    show (if (!checkWritable bm) = true then none else _) = none
+    simp [hcw]
+
+theorem openCall_frame (f : Fss) (i : Nat) (r bm : Str) (d : Option Bytes) (j : Nat)
+    (h : i = j → isQuery (.openbin r bm) = true) : (openCall f i r bm d).1 j = f j := by
+  by_cases hij : j = i
+  · subst hij
+    have hq := h rfl
+    unfold openCall
+    simp only [writeEffect_none_of_query r bm d _ hq]
+    split
+    · next heq => simp at heq
+    · exact (set_same _ _ _).trans (step_query_state _ _ hq)
+  · unfold openCall
+    simp only
+    split <;> exact set_other _ _ _ _ hij
+
+theorem forward_call (f : Fss) (i : Nat) (pr : Prim) (path : Str) :
+    (forward f i pr path).2.2 = ⟨i, pr.meth, path, pr.memberOp path⟩ := by
+  cases pr <;> first | rfl | exact openCall_call _ _ _ _ _
+
+theorem forward_frame (f : Fss) (i : Nat) (pr : Prim) (path : Str) (j : Nat)
+    (h : i = j → isQuery (pr.memberOp path) = true) : (forward f i pr path).1 j = f j := by
+  cases pr <;> first
+    | exact memberCall_frame _ _ _ _ _ _ h
+    | exact openCall_frame _ _ _ _ _ _ h
+
+theorem forward_query (f : Fss) (i : Nat) (pr : Prim) (path : Str)
+    (h : isQuery (pr.memberOp path) = true) : (forward f i pr path).1 = f := by
+  funext j
+  exact forward_frame f i pr path j (fun _ => h)
+
 /-! ## Part 4 — programs over primitives -/
 
 /-- every primitive the program can issue (whatever the results of earlier calls) satisfies `P` -/
@@ -780,6 +844,10 @@ theorem prim_cfg (s : MState) (pr : Prim) : SameCfg s (prim s pr).1 := by
     split
     · exact SameCfg.refl s
     · exact checked_cfg s _ (routed_cfg s _ _)
+  case open_ p m d =>
+    split
+    · exact SameCfg.refl s
+    · exact checked_cfg s _ (routed_cfg s _ _)
   case removedir p =>
     apply checked_cfg
     split
@@ -842,8 +910,8 @@ theorem routed_frame (s : MState) (pr : Prim) (p : Str) (j : Nat)
   | err e => simp only [routed, hd]
   | ok ir =>
     obtain ⟨i, r⟩ := ir
-    simp only [routed, hd, List.mem_singleton, forall_eq, memberCall_call] at h ⊢
-    exact memberCall_frame _ _ _ _ _ _ h
+    simp only [routed, hd, List.mem_singleton, forall_eq, forward_call] at h ⊢
+    exact forward_frame _ _ _ _ _ h
 
 theorem routed_calls (s : MState) (pr : Prim) (p : Str) :
     ∀ c ∈ (routed s pr p).2.2, routeMember s.mounts p = some c.fs ∧ c.meth = pr.meth ∧
@@ -855,7 +923,8 @@ theorem routed_calls (s : MState) (pr : Prim) (p : Str) :
     intro c hc
     simp only [routed, hd, List.mem_singleton] at hc
     subst hc
-    exact ⟨routeMember_of_delegate hd, rfl, rfl, rfl⟩
+    simp only [forward_call]
+    refine ⟨routeMember_of_delegate hd, ?_, ?_, ?_⟩ <;> first | trivial | rfl
 
 theorem getinfoRouted_fs (s : MState) (p : Str) : (getinfoRouted s p).1.fs = s.fs := by
   cases hd : delegate s.mounts p with
@@ -997,6 +1066,15 @@ theorem prim_frame (s : MState) (pr : Prim) (j : Nat)
       apply routed_frame
       intro c hcm; apply h c
       simp only [checked, hc]; exact hcm
+  case open_ p m d =>
+    split
+    · rfl
+    · next hm =>
+      rw [if_neg hm] at h
+      apply checked_fs; intro hc
+      apply routed_frame
+      intro c hcm; apply h c
+      simp only [checked, hc]; exact hcm
   case removedir p =>
     apply checked_fs; intro hc
     simp only [checked, hc] at h
@@ -1035,6 +1113,13 @@ theorem prim_calls (s : MState) (pr : Prim) :
     · apply checked_trace'
       intro c hc
       have := routed_calls s (.openbin p m) p c hc
+      exact Or.inr ⟨this.2.2.1, this.2.1, this.2.2.2⟩
+  case open_ p m d =>
+    split
+    · simp
+    · apply checked_trace'
+      intro c hc
+      have := routed_calls s (.open_ p m d) p c hc
       exact Or.inr ⟨this.2.2.1, this.2.1, this.2.2.2⟩
   case removedir p =>
     apply checked_trace'
@@ -1491,6 +1576,13 @@ theorem prim_cfg (s : MState) (pr : Prim) : SameCfg s (prim s pr).1 := by
     · split
       · exact viaWrite_cfg s _ _
       · exact viaDelegate_cfg s _ _ _ _
+  case open_ p m d =>
+    apply checked_cfg
+    split
+    · exact SameCfg.refl s
+    · split
+      · exact viaWrite_cfg s _ _
+      · exact viaDelegate_cfg s _ _ _ _
   all_goals first
     | exact checked_cfg s _ (viaDelegate_cfg s _ _ _ _)
     | exact checked_cfg s _ (viaWrite_cfg s _ _)
@@ -1513,10 +1605,11 @@ theorem checked_open (s : MState) (k : MState × Out × List Call) (hc : ¬ s.cl
 
 theorem onMember_frame (s : MState) (i : Nat) (pr : Prim) (path : Str) (j : Nat)
     (h : i = j → isQuery (pr.memberOp path) = true) : (onMember s i pr path).1.fs j = s.fs j :=
-  memberCall_frame s.fs i pr.meth path (pr.memberOp path) j h
+  forward_frame s.fs i pr path j h
 
 theorem onMember_trace (s : MState) (i : Nat) (pr : Prim) (path : Str) :
-    (onMember s i pr path).2.2 = [⟨i, pr.meth, path, pr.memberOp path⟩] := rfl
+    (onMember s i pr path).2.2 = [⟨i, pr.meth, path, pr.memberOp path⟩] := by
+  simp only [onMember, forward_call]
 
 /-- the state, result and trace of `viaDelegate`, by cases on what `_delegate` answers -/
 theorem viaDelegate_cases (s : MState) (pr : Prim) (p : Str) (cp : Res Str) (o : Out) :
@@ -1602,6 +1695,16 @@ theorem prim_frame (s : MState) (pr : Prim) (j : Nat)
       split
       · next hw => simp only [hw, if_true] at h; exact viaWrite_frame s _ _ j h
       · next hw => simp only [hw] at h; exact viaDelegate_frame s _ _ _ _ j h
+  case open_ p m d =>
+    apply checked_fs; intro hc
+    rw [checked_open s _ hc] at h
+    split
+    · rfl
+    · next hm =>
+      simp only [hm] at h
+      split
+      · next hw => simp only [hw, if_true] at h; exact viaWrite_frame s _ _ j h
+      · next hw => simp only [hw] at h; exact viaDelegate_frame s _ _ _ _ j h
   all_goals
     apply checked_fs; intro hc
     rw [checked_open s _ hc] at h
@@ -1662,6 +1765,19 @@ theorem prim_calls (s : MState) (pr : Prim) : ∀ c ∈ (prim s pr).2.2, CallCla
         left
         intro path
         simpa [Prim.memberOp, isQuery, checkWritable] using hw
+  case open_ p m d =>
+    apply checked_trace'
+    split
+    · simp
+    · split
+      · next hw => exact viaWrite_calls s _ _ (by simpa [Prim.writes, checkWritable] using hw)
+      · next hw =>
+        apply viaDelegate_calls
+        left
+        intro path
+        show (!checkWritable (binMode m)) = true
+        rw [checkWritable_binMode]
+        simpa using hw
   case remove p => exact checked_trace' s _ _ (viaDelegate_calls s _ _ _ _ (Or.inr ⟨rfl, rfl⟩))
   case removedir p => exact checked_trace' s _ _ (viaDelegate_calls s _ _ _ _ (Or.inr ⟨rfl, rfl⟩))
   all_goals first
@@ -1703,6 +1819,13 @@ theorem prim_calls_op (s : MState) (pr : Prim) :
   case scanFirst p =>
     exact checked_trace' s _ _ (fun c hc => Or.inl (scanFirstLoop_calls _ _ _ _ c hc))
   case openbin p m =>
+    apply checked_trace'
+    split
+    · simp
+    · split
+      · exact viaWrite_calls_op s _ _
+      · exact viaDelegate_calls_op s _ _ _ _
+  case open_ p m d =>
     apply checked_trace'
     split
     · simp
@@ -1766,17 +1889,31 @@ theorem prim_write_fails (s : MState) (pr : Prim) (hw : s.writeFs = none) (hpw :
       · have : checkWritable m = true := by simpa [checkWritable] using hpw
         simp only [this, if_true]
         exact ⟨_, rfl⟩
+  case open_ p m d =>
+    unfold checked
+    split
+    · exact ⟨_, rfl⟩
+    · split
+      · exact ⟨_, rfl⟩
+      · have : checkWritable m = true := by simpa [checkWritable] using hpw
+        simp only [this, if_true]
+        exact ⟨_, rfl⟩
   all_goals first
     | exact ⟨_, rfl⟩
     | (unfold checked; split <;> exact ⟨_, rfl⟩)
 
-/-- … and, on an open MultiFS (for `openbin`: with a valid mode), the error is `ResourceReadOnly` -/
+/-- … and, on an open MultiFS (for `openbin`/`open`: with a valid mode), the error is `ResourceReadOnly` -/
 theorem prim_write_read_only (s : MState) (pr : Prim) (hw : s.writeFs = none) (hc : s.closed = false)
-    (hpw : pr.writes = true) (hm : ∀ p m, pr = .openbin p m → modeOk m = true) :
+    (hpw : pr.writes = true)
+    (hm : ∀ p m, (pr = .openbin p m ∨ ∃ d, pr = .open_ p m d) → modeOk m = true) :
     (prim s pr).2.1 = .err .ResourceReadOnly := by
   cases pr <;> simp [Prim.writes] at hpw <;> simp only [prim, viaWrite_none _ _ _ hw, checked, hc]
   case openbin p m =>
-    have h1 := hm p m rfl
+    have h1 := hm p m (Or.inl rfl)
+    have : checkWritable m = true := by simpa [checkWritable] using hpw
+    simp [h1, this]
+  case open_ p m d =>
+    have h1 := hm p m (Or.inr ⟨d, rfl⟩)
     have : checkWritable m = true := by simpa [checkWritable] using hpw
     simp [h1, this]
   all_goals rfl
